@@ -79,7 +79,8 @@ Record BInv (s : state) : Prop := {
   b_done : forall t a, gth s t = Some a -> (t_pc a = PDone \/ (t_pc a = PUnlocked /\ good a = true)) ->
             rq_dry (t_req a) = false -> exists e, t_entry a = Some e /\ In e (persisted s);
   b_ok : forall t a x, gth s t = Some a -> t_resp a = Some (ROk x) -> rq_dry (t_req a) = false ->
-            exists e, In e (persisted s) /\ e_ik e = rq_ik (t_req a) /\ e_txid e = x;
+            exists e, In e (persisted s) /\ e_ik e = rq_ik (t_req a) /\
+                      (e_txid e = x \/ (same_kind (e_kind e) (rq_kind (t_req a)) = false /\ x = None));
   b_found : forall t a, gth s t = Some a -> rq_kind (t_req a) = KRevert -> rev_found (t_pc a) = true ->
             find_tx (persisted s) (rq_revert (t_req a)) <> None;
   b_revtx : forall x id, In x (all_entries s) -> e_reverts x = Some id -> find_tx (persisted s) id <> None
@@ -293,7 +294,8 @@ Section Step.
   Qed.
 
   Lemma e2s_ok : forall t1 a1 x, gth s' t1 = Some a1 -> t_resp a1 = Some (ROk x) -> rq_dry (t_req a1) = false ->
-            exists e, In e (persisted s') /\ e_ik e = rq_ik (t_req a1) /\ e_txid e = x.
+            exists e, In e (persisted s') /\ e_ik e = rq_ik (t_req a1) /\
+                      (e_txid e = x \/ (same_kind (e_kind e) (rq_kind (t_req a1)) = false /\ x = None)).
   Proof.
     intros t1 a1 x H Hr Hd. pose proof Heff as Heff'. e2_eff_names Heff'. rewrite Ep. e2_who Hnew H t1 t a1 E.
     - rewrite Ereq in *. specialize (Fresp _ Hr). cbn in Fresp.
@@ -305,9 +307,10 @@ Section Step.
       + assert (Ha : gth s t = Some a) by (apply e2s_oldP; rewrite Pd; discriminate).
         destruct (b_done s B _ _ Ha (or_introl Pd) Hd) as [e [He Hin]].
         destruct (proj1 (b_tl s B _ _ Ha)) as (_&_&_&T3&_). destruct (T3 e He) as (_&I&_&_&Tx'&_).
-        exists e. subst x. split; [exact Hin|]. split; [exact I|congruence].
+        exists e. subst x. split; [exact Hin|]. split; [exact I|left; congruence].
       + assert (Ha : gth s t = Some a) by (apply e2s_oldP; rewrite Pl; discriminate).
-        destruct (b_look s B _ _ _ Ha Pl) as [Hin I]. exists e. subst x. auto.
+        destruct (b_look s B _ _ _ Ha Pl) as [Hin I]. exists e. split; [exact Hin|]. split; [exact I|].
+        destruct X as [[K X]|[K X]]; [left; congruence|right; split; assumption].
     - exact (b_ok s B _ _ _ H Hr Hd).
   Qed.
 
